@@ -33,11 +33,17 @@ def judge(before, after, active_before, active_after, old, new, res):
         want = norm(before[old])
         ok_old = old in after and norm(after[old]) == want
         ok_new = new in after and norm(after[new]) == want and new not in before
-        if not (ok_old or ok_new) and not (old == new):
+        if old == new:
+            if not ok_old:
+                probs.append("renaming a script to its own name lost or changed it")
+        elif not (ok_old or ok_new):
             probs.append("the script being renamed survives under neither name with its content")
     if res not in ("b1", "b0", "error"):
         probs.append("failure surfaced as %s, not as False or Error" % res)
-    if res == "b1":
+    if res == "b1" and old == new:
+        if (active_after == old) != (active_before == old):
+            probs.append("returned True for a rename onto itself but activity changed")
+    elif res == "b1":
         if old in after and old != new:
             probs.append("returned True but the old name still exists")
         if old not in before:
@@ -98,6 +104,33 @@ def run(ctx):
                 viol.append({"state": "old=%s new=%s" % (o, n), "fault": fault, "what": "server protocol log: %r" % srv.log})
             if len(samples) < 3:
                 samples.append({"state": [o, n, by], "fault": fault, "result": out[:60]})
+    # renaming a script to its own name (a legal call): nothing may be lost
+    for o in ("inactive", "active"):
+        for by in (False, True):
+            for fault in [None] + [(st, f) for st in STEPS for f in ("NO", "LOST")]:
+                scripts = {old: r.choice(BODIES)}
+                if by:
+                    scripts[other] = r.choice(BODIES)
+                srv = refserver.RefServer(r, scripts=scripts, active=(old if o == "active" else None), version=False, faults=dict([fault]) if fault else {})
+                s = msref.Session()
+                g = srv.greeting()
+                c_out = s.connect(b"", [], "user", "pw", server=srv)
+                reqs = ["c op=new", msref.req_connect(g, [], "user", "pw", later=list(s.wire.segments))]
+                outs = ["ok", c_out]
+                before, abefore = dict(srv.scripts), srv.active
+                nseg = len(s.wire.segments)
+                out = s.op("renamescript", old.decode(), old.decode())
+                reqs.append(msref.req_op("renamescript", old.decode(), old.decode(), later=list(s.wire.segments[nseg:])))
+                outs.append(out)
+                lines += reqs
+                expect += outs
+                evals += 1
+                nontriv += 1
+                res = out.split(" ")[0][4:]
+                res = "crash" if res.startswith("crash") else res
+                for p in judge(before, dict(srv.scripts), abefore, srv.active, old, old, res):
+                    viol.append({"state": "self-rename old=%s bystander=%s" % (o, by), "fault": fault, "what": p, "result": out[:80],
+                                 "before": {k.decode(): v.decode("latin-1") for k, v in before.items()}, "after": {k.decode(): v.decode("latin-1") for k, v in srv.scripts.items()}})
     model = run_driver(lines, live_table=False)
     diffs = [{"suite": "client", "request": l[:300], "impl": e[:300], "model": m[:300]} for l, e, m in zip(lines, expect, model) if e != m]
     seen, uv = set(), []
